@@ -114,3 +114,5 @@ META = {
     "outside_claim": ["keys outside the pool (unidecode/inflection/regex realise symbolic strings; no SMT model of them)", "nested layout for non-tree graphs (excluded by the property)"],
     "assumptions": ["sqlmodel is the stub package /verif/stubs/sqlmodel"],
 }
+if isinstance(META.get("bounds"), dict) and "quick" in META["bounds"]:
+    META["bounds"]["quick"] += '; symbol-prefixed / parameter-name keys (16) in any of the 3 key positions x 3 templates; escaping-sensitive keys in the odd-key pool'
